@@ -740,6 +740,9 @@ def to_const_poly(e: expr.Expr) -> ConstantPolynomial:
             return ConstantPolynomial([ConstantMonomial(1, [(expr.E, a.get_fraction())])])
         elif e.args[0].is_fun() and e.args[0].func_name == "log":
             return to_const_poly(e.args[0].args[0])
+        elif from_const_poly(a).is_fun() and from_const_poly(a).func_name == "log":
+            # the argument has become a logarithm by normalization: exp(sqrt(log(2)) * sqrt(log(2)))
+            return to_const_poly(from_const_poly(a).args[0])
         else:
             return const_singleton(expr.exp(from_const_poly(a)))
 
@@ -924,8 +927,13 @@ def to_poly(e: expr.Expr, conds: Conditions) -> Polynomial:
         a = e.args[0]
         if a.is_fun() and a.func_name == "log":
             return to_poly(a.args[0], conds)
+        pa = to_poly(a, conds)
+        norm_a = from_poly(pa)
+        if norm_a.is_fun() and norm_a.func_name == "log":
+            # the argument has become a logarithm by normalization: exp(1/2 * log(x ^ 2)), x > 0
+            return to_poly(norm_a.args[0], conds)
         else:
-            return Polynomial([Monomial(const_fraction(1), [(expr.E, to_poly(a, conds))], conds)], conds)
+            return Polynomial([Monomial(const_fraction(1), [(expr.E, pa)], conds)], conds)
 
     elif e.is_fun() and e.func_name in ("sin", "cos", "tan", "cot", "csc", "sec"):
         a = e.args[0]
@@ -958,7 +966,11 @@ def to_poly(e: expr.Expr, conds: Conditions) -> Polynomial:
         elif a.is_divides() and a.args[0] == expr.Const(1):
             return to_poly(expr.Fun("log", a.args[1] ** expr.Const(-1)), conds)
         else:
-            return fun_singleton(expr.log(normalize(a, conds)), conds)
+            norm_a = normalize(a, conds)
+            if norm_a != a and norm_a.is_divides() and norm_a.args[0] == expr.Const(1) and conds.is_positive(norm_a.args[1]):
+                # log(a ^ (-1/2)) has become log(1 / sqrt(a)), which the cases above turn into -log(sqrt(a))
+                return to_poly(expr.log(norm_a), conds)
+            return fun_singleton(expr.log(norm_a), conds)
 
     elif e.is_fun() and e.func_name == "sqrt":
         return to_poly(expr.Op("^", e.args[0], expr.Const(Fraction(1, 2))), conds)
